@@ -16,12 +16,16 @@ func StringToNote(note string) (byte, error) {
 	}
 
 	pitch := strings.ToUpper(match[1])
+	pitchVal, ok := pitchToVal[pitch]
+	if !ok {
+		return 0, fmt.Errorf("unknown pitch: %s", pitch)
+	}
 	octave, err := strconv.Atoi(match[2])
 	if err != nil {
 		return 0, fmt.Errorf("parsing octave failed: %w", err)
 	}
 
-	calculated := (uint8(octave)+2)*12 + pitchToVal[pitch]
+	calculated := (uint8(octave)+2)*12 + pitchVal
 	if calculated < 0 || calculated > 127 {
 		return 0, fmt.Errorf("note outside of midi range 0-127: %d", calculated)
 	}
